@@ -191,6 +191,25 @@ def run(tier):
                             continue      # quick: the control placements only for two of the four shapes
                         plans.append({"kind": "hist", "slots": 4, "ops": ops, "os": osd, "refuse_each": osd == "b" and c_sz == 24,
                                       "walk": True, "amplify": True, "src": "directed-grow-onto-free-first-chunk"})
+    # directed family "a retired segment with one minimal live block": under disjoint placement a segment
+    # is filled so that exactly a minimal chunk of top is left when the next mapping retires it (the
+    # remainder is binned), that chunk is then allocated (the segment's LAST chunk is a live minimal
+    # block; mirror: its FIRST chunk), everything else in the segment is freed and a release pass is
+    # forced (a block above the trim threshold freed into top of the head segment): the segment must not
+    # be unmapped while the survivor lives; the survivor is verified and used afterwards
+    for big1 in (60000, 200000):
+        for tiny in (1, 24):
+            for keep in (16, 32):
+                for mirror in (False, True):
+                    if not mirror:
+                        ops = [["m", 0, big1, 16], ["t", 1, keep], ["m", 2, 3 * k["trim_threshold"] // 2, 16], ["m", 3, tiny, 16],
+                               ["f", 0], ["f", 1], ["f", 2], ["r", 3, 20], ["m", 0, 5000, 16], ["f", 3], ["f", 0]]
+                    else:
+                        ops = [["m", 3, tiny, 16], ["m", 0, big1, 16], ["t", 1, keep], ["m", 2, 3 * k["trim_threshold"] // 2, 16],
+                               ["f", 0], ["f", 1], ["f", 2], ["r", 3, 20], ["m", 0, 5000, 16], ["f", 3], ["f", 0]]
+                    for osd in ("d", "b", "a"):
+                        plans.append({"kind": "hist", "slots": 4, "ops": ops, "os": osd, "walk": True,
+                                      "src": "directed-retired-segment-with-minimal-survivor"})
     # unsatisfiable requests (legal layouts far beyond what any OS grants): null, nothing lost,
     # the heap stays usable; logged sizes are clamped to 2^29 (>= Huge) for TLC's integers
     for i, huge in enumerate([1 << 31, 1 << 40, (1 << 62) + 12345, (1 << 63) - 4096 - 1]):
